@@ -80,8 +80,8 @@ def work(task):
             S = su * sv if op == "mul" else su / sv
             snat = nat[(u, v)][0 if op == "mul" else 1]
             for (M, label) in boundary_targets(rng, b, oent, task["tier"]):
-                lbs = [Fraction(1)] + ([Fraction(4), Fraction(1, 2)] if task["tier"] == "thorough" else [])
-                for lbf in lbs[:(2 if label == "on" else 1)]:
+                lbs = [Fraction(1)] + ([Fraction(4), Fraction(1, 2), Fraction(-1), Fraction(3), Fraction(1, 8)] if task["tier"] == "thorough" else [])
+                for lbf in (lbs if task["tier"] == "thorough" else lbs[:1]):
                     laf = M / S / lbf if op == "mul" else M * lbf / S
                     x = enc_exact(laf, b)
                     exact = x is not None
@@ -207,7 +207,7 @@ def work_fit(task):
         if label in ("on", "on_ineligible"):
             for nb in am.neighbours(e, b, ks=(1, -1)):
                 ms.append((nb, label + "_neighbour"))
-    n_rand = 10 if task["tier"] == "quick" else 300
+    n_rand = 10 if task["tier"] == "quick" else 3000
     for (e, c) in cl.safe_amounts(rng, b, ent, 0, n_rand, ["safe_random", "short_dec", "small_int", "scale_related"]):
         ms.append((e, "random:" + c))
     for (e, label) in ms:
